@@ -680,3 +680,205 @@ func (c *Ctx) locksReleasedOnAllExits(rule string, f *ssa.Function) (bad []strin
 	sort.Strings(bad)
 	return
 }
+
+// pooledObjectsClean: what comes out of a sync.Pool carries whatever its previous user left in it. For every
+// (*sync.Pool).Get() in fns (and their static in-module callees, three levels), the object is either emptied at the
+// Get — a Reset()/Truncate(0) on it that comes before every other use (the tree's own idiom, iox.BufferPool.Get) —
+// or emptied at every Put: a Put that is not deferred and directly follows a Reset (a panic then never returns the
+// object), or a Put inside a deferred literal that resets first. A deferred Put with the Reset only on the normal path
+// returns a filled object to the pool when the function panics: the next user's content is appended to it.
+func (c *Ctx) pooledObjectsClean(fns []*ssa.Function) (bad []string, gets int) {
+	seen := map[*ssa.Function]bool{}
+	var visit func(f *ssa.Function, depth int)
+	isPoolCall := func(cc *ssa.CallCommon, name string) bool {
+		return calleeName(cc) == "(*sync.Pool)."+name
+	}
+	isResetOn := func(ins ssa.Instruction, v ssa.Value) bool {
+		call, ok := ins.(*ssa.Call)
+		if !ok || len(call.Call.Args) == 0 || call.Call.Args[0] != v {
+			return false
+		}
+		sc := call.Call.StaticCallee()
+		if sc == nil {
+			return false
+		}
+		if sc.Name() == "Reset" {
+			return true
+		}
+		if sc.Name() == "Truncate" && len(call.Call.Args) == 2 {
+			if k, ok := call.Call.Args[1].(*ssa.Const); ok && k.Value != nil && k.Int64() == 0 {
+				return true
+			}
+		}
+		return false
+	}
+	before := func(a, b ssa.Instruction) bool {
+		if a.Block() != b.Block() {
+			return a.Block().Dominates(b.Block())
+		}
+		for _, i := range a.Block().Instrs {
+			if i == a {
+				return true
+			}
+			if i == b {
+				return false
+			}
+		}
+		return false
+	}
+	visit = func(f *ssa.Function, depth int) {
+		if f == nil || f.Blocks == nil || seen[f] || depth > 3 {
+			return
+		}
+		seen[f] = true
+		for _, b := range f.Blocks {
+			for _, ins := range b.Instrs {
+				if ci, ok := ins.(ssa.CallInstruction); ok {
+					if sc := ci.Common().StaticCallee(); sc != nil && sc.Pkg != nil && strings.HasPrefix(sc.Pkg.Pkg.Path(), strings.TrimSuffix(mod, "/")) {
+						visit(sc, depth+1)
+					}
+					for _, a := range ci.Common().Args {
+						if mc, ok := a.(*ssa.MakeClosure); ok {
+							visit(mc.Fn.(*ssa.Function), depth)
+						}
+					}
+				}
+				call, ok := ins.(*ssa.Call)
+				if !ok || !isPoolCall(call.Common(), "Get") {
+					continue
+				}
+				gets++
+				// the typed object: through type assertions
+				objs := []ssa.Value{call}
+				for i := 0; i < len(objs); i++ {
+					for _, r := range *objs[i].Referrers() {
+						switch x := r.(type) {
+						case *ssa.TypeAssert:
+							objs = append(objs, x)
+						case *ssa.Extract:
+							if x.Index == 0 {
+								objs = append(objs, x)
+							}
+						}
+					}
+				}
+				obj := objs[len(objs)-1]
+				var resets, uses, puts []ssa.Instruction
+				for _, r := range *obj.Referrers() {
+					switch x := r.(type) {
+					case *ssa.DebugRef:
+						continue
+					case *ssa.MakeInterface:
+						onlyPut := true
+						for _, rr := range *x.Referrers() {
+							ci, ok := rr.(ssa.CallInstruction)
+							if !ok || !isPoolCall(ci.Common(), "Put") {
+								onlyPut = false
+							} else {
+								puts = append(puts, rr)
+							}
+						}
+						if !onlyPut {
+							uses = append(uses, r)
+						}
+						continue
+					}
+					if isResetOn(r, obj) {
+						resets = append(resets, r)
+					} else {
+						uses = append(uses, r)
+					}
+				}
+				cleanAtGet := false
+				for _, rs := range resets {
+					ok := true
+					for _, u := range uses {
+						if !before(rs, u) {
+							ok = false
+						}
+					}
+					if ok {
+						cleanAtGet = true
+					}
+				}
+				if cleanAtGet {
+					continue
+				}
+				cleanAtPut := len(puts) > 0
+				for _, p := range puts {
+					if _, deferred := p.(*ssa.Defer); deferred {
+						cleanAtPut = false
+						continue
+					}
+					ok := false
+					for _, rs := range resets {
+						if rs.Block() == p.Block() && before(rs, p) {
+							ok = true
+							for _, u := range uses {
+								if u.Block() == p.Block() && before(rs, u) && before(u, p) {
+									ok = false
+								}
+							}
+						}
+					}
+					if !ok {
+						cleanAtPut = false
+					}
+				}
+				// an object captured by a deferred literal that resets and puts it
+				if !cleanAtPut && len(puts) == 0 {
+					for _, u := range uses {
+						mc, ok := u.(*ssa.MakeClosure)
+						if !ok {
+							continue
+						}
+						isDeferred := false
+						for _, rr := range *mc.Referrers() {
+							if _, ok := rr.(*ssa.Defer); ok {
+								isDeferred = true
+							}
+						}
+						if !isDeferred {
+							continue
+						}
+						lit := mc.Fn.(*ssa.Function)
+						var fv *ssa.FreeVar
+						for i, bnd := range mc.Bindings {
+							if bnd == obj {
+								fv = lit.FreeVars[i]
+							}
+						}
+						if fv == nil {
+							continue
+						}
+						var r2, p2 ssa.Instruction
+						for _, rr := range *fv.Referrers() {
+							if isResetOn(rr, fv) {
+								r2 = rr
+							}
+							if mi, ok := rr.(*ssa.MakeInterface); ok {
+								for _, r3 := range *mi.Referrers() {
+									if ci, ok := r3.(ssa.CallInstruction); ok && isPoolCall(ci.Common(), "Put") {
+										p2 = r3
+									}
+								}
+							}
+						}
+						if r2 != nil && p2 != nil && before(r2, p2) {
+							cleanAtPut = true
+						}
+					}
+				}
+				if cleanAtPut {
+					continue
+				}
+				bad = append(bad, fmt.Sprintf("%s: %s takes an object from a sync.Pool and neither empties it before use nor on every way back into the pool (a deferred Put with the Reset on the normal path only): after a panic here the next user appends to the previous content", c.P.Pos(call.Pos()), funcDisplay(f)))
+			}
+		}
+	}
+	for _, f := range fns {
+		visit(f, 0)
+	}
+	sort.Strings(bad)
+	return bad, gets
+}
